@@ -110,7 +110,23 @@ class C20(Prop):
             if rng.random() < .15:
                 it = rng.choice([' ', '  ']) + it + rng.choice(['', ' '])
             items.append(it)
-        return {'files': files, 'expr': ','.join(items), 'read': rng.random() < .3}
+        case = {'files': files, 'expr': ','.join(items), 'read': rng.random() < .3}
+        if rng.random() < .25:
+            # a history: after the first resolution files appear (next to existing ones, in directories of any depth) and
+            # disappear; the same expression must then resolve to the files that exist NOW
+            later = []
+            for _ in range(rng.randint(1, 3)):
+                f = rng.choice(files)
+                d = f.rsplit('/', 1)[0] + '/' if '/' in f else ''
+                later.append(d + rng.choice(['part-00007', 'a.txt', 'zz.txt', 'new/part-00000', os.path.basename(f) + 'x']))
+            def fits(f):
+                # not the name of an existing directory, and no existing (or new) file among its parent directories
+                others = set(files) | set(later)
+                parents = {f[:i] for i, c in enumerate(f) if c == '/'}
+                return not any(o.startswith(f + '/') for o in others) and not (parents & others)
+            case['later'] = sorted(f for f in set(later) - set(files) if fits(f))
+            case['gone'] = [f for f in files if rng.random() < .2]
+        return case
 
     def fixed_cases(self, tier):
         files = ['tree/a.txt', 'tree/b.txt', 'trie/a.txt', 'a.txt', 'out/part-00000', 'out/part-00001', 'out/_SUCCESS',
@@ -118,7 +134,9 @@ class C20(Prop):
         exprs = ['tre?/a.txt', '*/a.txt', '?ree/a.txt', './tre?/a.txt', 'tree/*', 'tree/?.txt', '*.txt', 'a.txt', 'out', 'out/',
                  'nest/out', 'nest/*', '*', 'file://out', 'file://@BASE@/out', '@BASE@/tr*/a.txt', 'out,tree/a.txt', ' out , a.txt',
                  'none*', 'out/_SUCC*', 'out/part-0000?', 'o*t', 'nest/o?t']
-        return [{'files': files, 'expr': e, 'read': True} for e in exprs]
+        hist = [{'files': files, 'expr': e, 'read': False, 'later': ['nest/out/part-00003', 'tree/c.txt'], 'gone': ['tree/a.txt']}
+                for e in ('nest/out', 'nes*/o?t/part-*', 'tre?/*.txt', '@BASE@/nest/out', '*/*')]
+        return [{'files': files, 'expr': e, 'read': True} for e in exprs] + hist
 
     def nontrivial(self, case):
         return any(c in case['expr'] for c in '*?,') or not any(case['expr'].strip().endswith(f) for f in case['files'])
@@ -186,6 +204,29 @@ class C20(Prop):
                 m = ctx.driver.ask({'p': 'C20', 'op': 'match', 'pattern': pat, 's': f})['model']
                 if m != fnmatch.fnmatchcase(f, pat):
                     return Mismatch('model matcher differs from fnmatch', fnmatch.fnmatchcase(f, pat), m, 'matcher-model')
+        if case.get('later') or case.get('gone'):
+            ctx.note('history:files-appear-and-disappear')
+            now = [f for f in case['files'] if f not in (case.get('gone') or [])] + list(case.get('later') or [])
+            for f in case.get('gone') or []:
+                os.remove(os.path.join(base, f))
+            for f in case.get('later') or []:
+                q_ = os.path.join(base, f)
+                os.makedirs(os.path.dirname(q_), exist_ok=True)
+                with open(q_, 'w') as fh:
+                    fh.write(os.path.basename(f) + '\n')
+            os.chdir(base)
+            try:
+                try:
+                    got2 = self.File.resolve_filenames(expr)
+                except Exception as e:  # pylint: disable=broad-except
+                    got2 = exc(e)
+            finally:
+                os.chdir(self.cwd0)
+            r2 = ctx.driver.ask({'p': 'C20', 'op': 'resolve', 'files_rel': now, 'base': base, 'expr': expr})
+            if isinstance(got2, dict) or sorted(got2) != sorted(r2['model']):
+                return Mismatch('after files appeared / disappeared the same expression does not resolve to exactly the files that '
+                                'exist now', got2 if isinstance(got2, dict) else sorted(got2), sorted(r2['model']), 'C20:resolve:history',
+                                relation='set')
         if back is not None:
             if isinstance(back, dict):
                 return Mismatch('textFile raised on the resolved files', back, r['reader'], 'C20:read:exc')
